@@ -238,6 +238,28 @@ Theorem C08_merge_stacked_legacy_unshifted_refuted :
   exists lkcs, si_stack_rows false (map si_of lkcs) 0 <> Some (mv_docs_with_values (merge_stacked (map snd lkcs))).
 Proof. exact stacked_legacy_unshifted_refuted. Qed.
 
+(* ---- dictionary merge of Str / Bytes columns (TermMerger k-way merge + TermOrdinalMapping) ---- *)
+From TV Require Import Columnar.DictMerge.
+
+(* stacked merge of ANY per-segment dictionaries (any number of segments, any term lists): every term ordinal of every
+   segment is remapped to an ordinal that designates the same term in the merged dictionary, i.e. after the merge every
+   document reads the same term as before *)
+Theorem C08_dict_merge_stacked : forall dicts d ord, In d dicts -> (ord < length d)%nat ->
+  exists x, nth_error (seg_map (stack_trace dicts) 0 d) ord = Some (Some x) /\
+            nth_error (merged_dict (stack_trace dicts)) x = nth_error d ord.
+Proof. exact stacked_dict_merge_reads_same. Qed.
+
+(* along ANY merge trace (stacked or shuffled, whatever terms are dropped): a REGISTERED ordinal reads the same term *)
+Theorem C08_dict_merge_registered_reads_same : forall trace cur rest j x,
+  nth_error (seg_map trace cur rest) j = Some (Some x) ->
+  (cur <= x)%nat /\ nth_error (merged_dict trace) (x - cur) = nth_error rest j.
+Proof. exact seg_map_reads_same. Qed.
+
+Example dict_merge_near_miss :
+  dict_merge (fun _ _ => true) [[[97]; [98]; [122]]; [[97]; [99]; [122]]] =
+  ([[97]; [98]; [99]; [122]], [[Some 0; Some 1; Some 3]; [Some 0; Some 2; Some 3]]%nat).
+Proof. vm_compute. reflexivity. Qed.
+
 Print Assumptions C08_bitpack_roundtrip.
 Print Assumptions C08_unpacker_reads_window.
 Print Assumptions C08_packer_layout.
@@ -391,3 +413,5 @@ Print Assumptions C08_merge_stacked_legacy_unfiltered.
 Print Assumptions C08_legacy_input_as_current.
 Print Assumptions C08_merge_stacked_legacy_empty_rows_refuted.
 Print Assumptions C08_merge_stacked_legacy_unshifted_refuted.
+Print Assumptions C08_dict_merge_stacked.
+Print Assumptions C08_dict_merge_registered_reads_same.
